@@ -104,6 +104,7 @@ RULES = {
     "ADMISSIBLE-SEEDED": _mod("rules2", "rule_admissible", True),
     "ONE-PER-PAIR": _mod("rules2", "rule_one_per_pair"),
     "NONDET": _mod("rules2", "rule_nondet"),
+    "UNIT-INTERVAL": _mod("rules2", "rule_unit_interval"),
     "RELAX-AGREE": _mod("bfm", "rule_relax_agree"),
     "FW-SHAPE": _mod("relax", "rule_fw_shape"),
     "DM-QUERIES": _mod("relax", "rule_dm_queries"),
@@ -112,6 +113,7 @@ RULES = {
     "CONC": _mod("conc", "rule_conc", None),
     "CONC-OPS": _mod("conc", "rule_conc", ["complement", "union"]),
     "CONC-PRED": _mod("conc", "rule_conc", ["is_semicomplete"]),
+    "CONC-QUERY": _mod("conc", "rule_conc", ["degree_sequence"]),
     "CONC-COMPLETE": _mod("conc", "rule_conc", ["complete"]),
     "CONC-SEEDED": _mod("conc", "rule_conc", ["erdos_renyi", "random_tournament"]),
     "DEFN-QUERIES": _mod("defn", "rule_defn", "queries"),
@@ -126,6 +128,7 @@ RULES = {
     "TOTAL-REMOVE": _guard("rule_total", ["remove_arc"], 5),
     "TOTAL": _guard("rule_total", None, 21),
     "ENCAPS": _guard("rule_encaps"),
+    "BITS": _guard("rule_bits"),
     "EXHAUST-DJ": rule_exhaust_for(["::Dijkstra", "::DijkstraDist"]),
     "EXHAUST-BFS": rule_exhaust_for(["::Bfs", "::BfsDist"]),
     "EXHAUST-PRED": rule_exhaust_for(["::BfsPred", "::DijkstraPred"]),
@@ -153,7 +156,7 @@ TB = ["rustc MIR + trait solver", "gsa-driver fact exporter", "gsa/effects.py st
 
 PROPERTY_RULES = {
     "C02": {
-        "rules": ["PURE", "TOTAL", "IDSRC", "DEFN-QUERIES"],
+        "rules": ["PURE", "TOTAL", "IDSRC", "DEFN-QUERIES", "CONC-QUERY"],
         "explanation": "Queries cannot change the digraph: the five representations are Freeze and in every body that receives a "
                        "digraph by shared reference no store, raw-pointer write or *const->*mut cast targets memory behind that "
                        "reference (PURE). The 21 documented-total queries (has_arc, has_edge, has_walk, arc_weight, remove_arc) "
@@ -163,7 +166,9 @@ PROPERTY_RULES = {
                        "primitive ones (DEFN): has_edge is has_arc(u,v) AND has_arc(v,u) as a truth table over its call atoms, "
                        "degree = indegree + outdegree, is_pendant = (degree == 1), default is_sink/is_source = (out/indegree == 0), "
                        "is_isolated = is_sink AND is_source, sinks/sources filter vertices() by is_sink/is_source, the "
-                       "semidegree/outdegree sequences map vertices() to (indegree, outdegree) / outdegree.",
+                       "semidegree/outdegree sequences map vertices() to (indegree, outdegree) / outdegree. The threaded "
+                       "AdjacencyList::degree_sequence splits the rows with chunks(div_ceil(order, t)) inside thread::scope and "
+                       "its workers write only their own histogram (CONC).",
         "trusted_base": TB + ["lemma L-ROWMAJOR for the bit-matrix cell index"],
         "not_decided": "the value of the primitive queries themselves (order, size, has_arc, indegree, outdegree, neighbours, "
                        "has_walk's truth value, the threaded degree_sequence): value-level; a derived query rewritten so that it "
@@ -226,9 +231,10 @@ PROPERTY_RULES = {
         "assumptions": COMMON_ASSUMPTIONS,
     },
     "C14": {
-        "rules": ["ADMISSIBLE-DET", "CONC-COMPLETE"],
+        "rules": ["ADMISSIBLE-DET", "CONC-COMPLETE", "BITS"],
         "explanation": "For the 33 deterministic generator impls every path to a normal return passes the admissibility test "
                        "(order > 0, wheel order >= 4, m > 0 and n > 0) or a delegation to Self::empty/trivial that performs it; "
+                       "bit-matrix generators set cells only through single-bit read-modify-writes (BITS); "
                        "the parallel AdjacencyList::complete joins all workers, partitions rows by the proven template and "
                        "re-sorts by vertex.",
         "trusted_base": TB + ["lemma L-TILE"],
@@ -236,15 +242,17 @@ PROPERTY_RULES = {
         "assumptions": COMMON_ASSUMPTIONS,
     },
     "C15": {
-        "rules": ["NONDET", "ADMISSIBLE-SEEDED", "ONE-PER-PAIR", "CONC-SEEDED"],
+        "rules": ["NONDET", "ADMISSIBLE-SEEDED", "ONE-PER-PAIR", "CONC-SEEDED", "UNIT-INTERVAL"],
         "explanation": "No library body reaches an ambient source of nondeterminism (time, hash-order containers, thread ids, "
                        "env, OS RNG) and the CPU count flows into a PRNG seed only in the two documented AdjacencyMap "
                        "generators (NONDET); every seeded generator checks order > 0 and p in [0, 1] before returning "
                        "(ADMISSIBLE); random_tournament makes exactly one draw per pair u < v and inserts u->v on one outcome "
                        "and v->u on the other, random_recursive_tree draws the parent as x % u (ONE-PER-PAIR); the threaded "
-                       "AdjacencyMap generators join their workers and partition rows by the proven template (CONC).",
+                       "AdjacencyMap generators join their workers and partition rows by the proven template (CONC); "
+                       "Xoshiro256StarStar::next_f64 lies in [0, 1) by integer interval arithmetic on its constants: "
+                       "from_bits(1023 << 52 | (x & (2^52 - 1))) - 1.0, or an integer below C divided by C (UNIT-INTERVAL).",
         "trusted_base": TB,
-        "not_decided": "next_f64 in [0, 1) (bit-level), the p = 0 / p = 1 extremes, statistical quality",
+        "not_decided": "the distribution of the draws (statistical quality), that `next_f64() < p` realises probability p",
         "assumptions": COMMON_ASSUMPTIONS,
     },
     "C16": {
@@ -286,30 +294,35 @@ PROPERTY_RULES = {
     "C19": {
         "rules": ["TERMINATE", "MEM-SEARCH"],
         "explanation": "PredecessorTree::search_by: every iteration that continues marks a vertex that was tested unmarked "
-                       "(at most len iterations), search delegates to search_by, and the raw visited[] accesses are bounds-discharged.",
+                       "(at most len iterations), search delegates to search_by, the raw visited[] accesses are bounds-discharged, "
+                       "and apart from reading pred[s] for the start vertex no panic site of the walk is left undischarged.",
         "trusted_base": TB,
         "not_decided": "'returns Some exactly when ...' and the shape of the returned path: value-level",
         "assumptions": COMMON_ASSUMPTIONS,
     },
     "C20": {
-        "rules": ["FIELDS", "GUARD", "ENCAPS"],
+        "rules": ["FIELDS", "GUARD", "ENCAPS", "BITS"],
         "explanation": "For the five representations: Clone/PartialEq/Eq/PartialOrd/Ord/Hash exist once each, eq/cmp/"
                        "partial_cmp read every field of both operands, hash and clone every field of self, clone is field-wise; "
                        "fields own their data (no Rc/Arc/reference/raw pointer/interior mutability); no bit outside the "
-                       "order*order cells is ever set and only the analysed mutators write the containers (GUARD + ENCAPS).",
+                       "order*order cells is ever set and only the analysed mutators write the containers (GUARD + ENCAPS); "
+                       "every construction site of AdjacencyMatrix gives `blocks` exactly div_ceil(order*order, 64) words and every "
+                       "write into it is a single-bit read-modify-write (canonical storage: FIELDS canonical-length, BITS); a "
+                       "hand-written eq / cmp / hash next to derived ones must itself touch the operands only through their fields.",
         "trusted_base": TB + ["BTreeSet/BTreeMap/Vec equality, ordering and hashing are those of their contents (std)"],
         "not_decided": "'equal exactly when' over all pairs of construction histories",
         "assumptions": COMMON_ASSUMPTIONS,
     },
     "C01": {
-        "rules": ["GUARD", "NOPANIC-AFTER-WRITE", "TOTAL-REMOVE", "ENCAPS"],
+        "rules": ["GUARD", "NOPANIC-AFTER-WRITE", "TOTAL-REMOVE", "ENCAPS", "BITS"],
         "explanation": "For every function taking `&mut <representation>` (11 today) each arc-insertion site must be dominated "
                        "by tail != head, tail < order and head < order (GUARD; AdjacencyMap: tail != head and both endpoints "
                        "become keys on every path, ADMIT); the insertion is BTreeSet/BTreeMap::insert or `|=` (IDEMPOTENT, "
                        "toggle is the one `^=`), the stored weight is the weight argument, block index and bit mask address "
                        "the same cell u*order+v; no panic site is reachable after a modification (a rejected call leaves "
                        "the digraph unchanged); remove_arc cannot panic for any arguments (TOTAL); all fields of the five "
-                       "structs are private and no reachable function returns a mutable handle into them (ENCAPS).",
+                       "structs are private and no reachable function returns a mutable handle into them (ENCAPS); every "
+                       "write into AdjacencyMatrix::blocks anywhere in the crate is a single-bit read-modify-write (BITS).",
         "trusted_base": ["rustc MIR + trait solver", "gsa-driver fact exporter", "gsa/effects.py std semantics table",
                          "BTreeSet/BTreeMap give de-duplication and ascending iteration (std)"],
         "not_decided": "that a sequence of accepted calls yields exactly the model's arc set; ascending order of arcs()/vertices() "
